@@ -47,6 +47,7 @@ def run_tlc(tmp):
            "-dump", "dot,actionlabels", os.path.join(work, "graph"), "KeyFile.tla"]
     env = dict(os.environ)
     env.pop("PYTHONHASHSEED", None)
+    env["JAVA_TOOL_OPTIONS"] = (env.get("JAVA_TOOL_OPTIONS", "") + " -Djava.io.tmpdir=" + work).strip()      # TLC's scratch directory goes with the job's
     r = subprocess.run(cmd, cwd=work, capture_output=True, text=True, env=env, timeout=900)
     out = r.stdout + r.stderr
     if "No error has been found" not in out:
